@@ -1,5 +1,5 @@
 (* C16 — Rendering is a pure function of template and data. Theorems only. *)
-From Tpl Require Import Html.Exec Html.Manager Proofs.ExecSpec Proofs.PureRenderBase Proofs.PureRender Proofs.PureRenderTree Proofs.PureRenderExample.
+From Tpl Require Import Html.Exec Html.Manager Proofs.ExecSpec Proofs.PureRenderBase Proofs.PureRender Proofs.PureRenderTree Proofs.PureRenderExample Proofs.FuelMono.
 Open Scope N_scope.
 
 Section C16.
@@ -42,7 +42,25 @@ Proof. intros; eapply PureRenderBase.closed_self; eassumption. Qed.
 Theorem closed_fragment : forall is_space mgr ch, NoDup (map n_id ch) -> closed mgr ch (trim_blank_ends is_space ch).
 Proof. intros; eapply PureRenderBase.closed_trim; eassumption. Qed.
 
+
+(* The model's recursion fuel is not an observable: a render that did not run out of fuel gives exactly the same
+   output, result, table and log with any larger fuel (so the results above do not depend on the fuel the
+   correspondence driver happens to use, and "the" render of a template is well defined). *)
+Theorem fuel_irrelevant : forall is_space to_lower is_letter is_udigit methods call_fn mgr f f' tp data t st, (f <= f')%nat ->
+  no_fuel_err (execute is_space to_lower is_letter is_udigit methods call_fn mgr f tp data t st) ->
+  execute is_space to_lower is_letter is_udigit methods call_fn mgr f' tp data t st =
+  execute is_space to_lower is_letter is_udigit methods call_fn mgr f tp data t st.
+Proof. exact FuelMono.execute_fuel_mono_le. Qed.
+Theorem fuel_irrelevant_node : forall is_space to_lower is_letter is_udigit methods call_fn mgr f f', (f <= f')%nat ->
+  forall m c n s tp t st,
+  no_fuel_err (exec_node is_space to_lower is_letter is_udigit methods call_fn mgr f m c n s tp t st) ->
+  exec_node is_space to_lower is_letter is_udigit methods call_fn mgr f' m c n s tp t st =
+  exec_node is_space to_lower is_letter is_udigit methods call_fn mgr f m c n s tp t st.
+Proof. exact FuelMono.exec_fuel_mono_le. Qed.
+
 Print Assumptions execute_state_independent.
+Print Assumptions fuel_irrelevant.
+Print Assumptions fuel_irrelevant_node.
 Print Assumptions history_pure.
 Print Assumptions tree_ok_exists.
 (* Non-vacuity: Proofs/PureRenderExample.v (x_tree_ok, x_closed, x_same_true, x_same_false, wf_needed) *)
